@@ -456,6 +456,15 @@ impl ArchiveIndex {
         let size_bytes = footer_data[13];
         let ekey_length = footer_data[14];
         let footer_hash_bytes_check = footer_data[15];
+        // The byte that located the footer (13 from the end: right for an 8-byte
+        // hash) and the length field of the footer found with it are the same
+        // byte in a well-formed file. If they differ, the footer hash that was
+        // located is not the one the footer describes.
+        if footer_hash_bytes_check != footer_hash_bytes {
+            return Err(ArchiveError::InvalidFormat(format!(
+                "Footer hash size is {footer_hash_bytes} at its fixed position but {footer_hash_bytes_check} in the footer"
+            )));
+        }
         let element_count = u32::from_le_bytes([
             footer_data[16],
             footer_data[17],
@@ -1102,6 +1111,13 @@ impl ChunkedArchiveIndex {
         let size_bytes = footer_data[13];
         let ekey_length = footer_data[14];
         let footer_hash_bytes_check = footer_data[15];
+        // Same check as in `ArchiveIndex::parse`: both readings of the hash
+        // size must agree
+        if footer_hash_bytes_check != footer_hash_bytes {
+            return Err(ArchiveError::InvalidFormat(format!(
+                "Footer hash size is {footer_hash_bytes} at its fixed position but {footer_hash_bytes_check} in the footer"
+            )));
+        }
         let element_count = u32::from_le_bytes([
             footer_data[16],
             footer_data[17],
@@ -1372,6 +1388,30 @@ mod tests {
 
         footer.footer_hash = vec![0u8; 8];
         assert!(!footer.is_valid());
+    }
+
+    #[test]
+    fn test_footer_hash_size_readings_must_agree() {
+        // An empty index moved four bytes towards the end: the byte 13 from the
+        // end is now the page size (4) and locates a 24-byte footer whose own
+        // length field says 8. Only half of the footer hash would be compared.
+        let mut valid = Vec::new();
+        ArchiveIndexBuilder::new()
+            .build(Cursor::new(&mut valid))
+            .expect("Operation should succeed");
+        assert_eq!(valid.len(), 28);
+        let mut shifted = vec![0u8; 4];
+        shifted.extend_from_slice(&valid[..24]);
+        let result = ArchiveIndex::parse(&mut Cursor::new(&shifted));
+        assert!(matches!(result, Err(ArchiveError::InvalidFormat(_))));
+
+        // No footer hash at all: first reading 0, the footer's field says 8
+        let mut data = vec![0xAAu8; 8];
+        data.extend_from_slice(&[0x55, 0x55, 0x55, 0x55, 0x55, 0x55, 0x55, 0x00]);
+        data.extend_from_slice(&[1, 0, 0, 4, 4, 4, 16, 8]);
+        data.extend_from_slice(&0u32.to_le_bytes());
+        let result = ArchiveIndex::parse(&mut Cursor::new(&data));
+        assert!(matches!(result, Err(ArchiveError::InvalidFormat(_))));
     }
 
     #[test]
